@@ -46,7 +46,11 @@ class Prop(BaseProp):
         texts = [(mn, ""), (mn, "TREZOR"), (mn, "péss"), (mn, "péss"), (mn, "ﬁsh Å ㎡"), (mn, "́abc"),
                  ("café naïve", "Å"), ("あいこくしん　あいこくしん", "メートル　パス"),
                  (mn, "mnemonic#2"), (mn + "mnemonic", "#2"),          # different pairs whose PBKDF2 arguments concatenate to the same bytes
-                 ("", ""), ("a", "b" * 200), ("①② ½", "ẛ̣"), (mn.upper(), "x")]
+                 ("", ""), ("a", "b" * 200), ("①② ½", "ẛ̣"), (mn.upper(), "x"),
+                 # combining marks in non-canonical order and NO decomposable character anywhere in the string: only the reordering
+                 # half of NFKD applies (Vietnamese typing order, Arabic shadda+kasra, acute+dot-below, three marks)
+                 (mn, "e\u0302\u0323"), (mn, "\u0651\u0650"), ("a\u0301\u0323 b", "x"), (mn, "q\u0315\u0300\u05ae\u0316"),
+                 ("e\u0323\u0302", "e\u0302\u0323")]
         if T:
             for _ in range(20):
                 texts.append(("".join(chr(rng.choice([rng.randrange(32, 127), rng.randrange(0xc0, 0x250), rng.randrange(0x3040, 0x30ff), 0x301, 0x3000]))
